@@ -52,14 +52,21 @@ async def authenticator(
     """ Keep the credentials forever up to date. """
     counter: int = 0 if vault.is_empty() else 1
     while True:
-        await authenticate(
-            registry=registry,
-            settings=settings,
-            indices=indices,
-            vault=vault,
-            memo=memo,
-            _activity_title="Re-authentication" if counter else "Initial authentication",
-        )
+        try:
+            await authenticate(
+                registry=registry,
+                settings=settings,
+                indices=indices,
+                vault=vault,
+                memo=memo,
+                _activity_title="Re-authentication" if counter else "Initial authentication",
+            )
+        except Exception:
+            # This task is exiting: no credentials will ever come anymore. Unblock the API clients
+            # that wait for them (so that they fail on their own), or they will wait forever
+            # and will hang the operator on its exit (e.g. the final peering keep-alive).
+            await vault.populate({})
+            raise
         counter += 1
 
 
